@@ -4,7 +4,9 @@ used estimator == the same with read-only operations interleaved (predict,
 get_params, copies, pickles; the accessors get_cluster_centers / get_bounding_boxes /
 predict_regression / ... on the estimator and on every nested module).  A used
 DeepARTMAP is also re-fitted in the other mode (fit(X) <-> fit(X, y)) and after
-`modules` was replaced by attribute assignment.  Tie: the
+`modules` was replaced by attribute assignment; a used FusionART is re-fitted after its gamma_values
+were re-configured (set_params / attribute assignment, list or ndarray) on streams with exact activation ties
+across >= 3 channels.  Tie: the
 Lean folds reproduce fit / partial_fit histories end-to-end (exact kernels)."""
 from __future__ import annotations
 
@@ -17,7 +19,8 @@ from .. import gen, families
 from ..impl import quiet, exc_enum, eq_snap, make as _make
 from . import e2e
 
-RULE = ("cases = (family, hyper-parameters, stream, partition / earlier history (DeepARTMAP: in either mode, modules re-assigned) "
+RULE = ("cases = (family, hyper-parameters, stream, partition / earlier history (DeepARTMAP: in either mode, modules re-assigned; "
+        "FusionART: gamma_values re-configured by set_params / assignment, as list / ndarray, >= 3 channels with exact fused ties) "
         "/ read-only interleaving incl. accessors); all "
         "compositions for n <= 5, random ones beyond; non-trivial when the stream has >= 2 samples and the trained "
         "model has >= 2 categories or a non-trivial map; distinct by hash of (family spec, stream, partition)")
@@ -278,6 +281,244 @@ def deep_refits(ctx):
         cov.hit(f"deep-refit:history:{how}")
 
 
+# ---------------------------------------------------------------- hyper-parameters handed over by different routes
+#
+# "Calling fit on a previously used estimator yields exactly what a fresh estimator with the same hyper-parameters
+# yields" — the used estimator may have got those hyper-parameters by another route than the fresh one: the fresh one
+# through the constructor, the used one through set_params(...) or attribute assignment after its earlier history (or
+# before any training at all).  FusionART takes its activation ratios gamma_values as a list or as an ndarray; the same
+# container with the same values must give the same model bit for bit whichever route delivered it.  What makes the
+# route observable are last-bit effects, so the streams hold what the dyadic / grid generators above never produce:
+# >= 3 channels, non-dyadic ratios, and categories whose fused activations are EQUAL in exact arithmetic but are summed
+# in another channel order (category B's channel templates are a ratio-preserving permutation of category A's, and a
+# later sample looks the same in all channels), so that one ulp decides the winner, hence labels and weights.
+
+GAMMA_POOL = {
+    3: [[1 / 3] * 3, [0.3, 0.4, 0.3], [0.35, 0.3, 0.35], [0.5, 0.25, 0.25], [0.2, 0.6, 0.2], [0.3, 0.3, 0.4]],
+    4: [[0.25] * 4, [0.2, 0.2, 0.2, 0.4], [0.3, 0.2, 0.2, 0.3], [0.1, 0.3, 0.3, 0.3], [0.15, 0.35, 0.15, 0.35], [0.4, 0.2, 0.2, 0.2]],
+    5: [[0.2] * 5, [0.15, 0.15, 0.15, 0.15, 0.4], [0.1, 0.2, 0.4, 0.2, 0.1], [0.125, 0.25, 0.25, 0.25, 0.125], [0.3, 0.1, 0.2, 0.1, 0.3]],
+    6: [[0.125, 0.125, 0.25, 0.25, 0.125, 0.125], [0.15, 0.15, 0.2, 0.2, 0.15, 0.15], [0.1, 0.1, 0.1, 0.1, 0.1, 0.5]],
+}
+CONTAINERS = {"list": lambda g: [float(x) for x in g], "ndarray": lambda g: np.array(g, dtype=float)}
+
+
+def _gamma_ok(g) -> bool:
+    """valid for the library in both containers (validate_params wants sum == 1.0 exactly, with its own summation)"""
+    import artlib
+    try:
+        for mk in CONTAINERS.values():
+            artlib.FusionART.validate_params({"gamma_values": mk(g)})
+        return True
+    except Exception:
+        return False
+
+
+def _ratio_preserving_perm(r, g):
+    """a non-identity permutation pi of the channels with g[pi(k)] == g[k] (None when all ratios are distinct); groups
+    of >= 3 equal ratios are rotated (a transposition of the first two summands commutes even in floating point)"""
+    groups = {}
+    for k, x in enumerate(g):
+        groups.setdefault(x, []).append(k)
+    pi, moved = list(range(len(g))), False
+    for ks in sorted(groups.values(), key=len, reverse=True):
+        if len(ks) < 2 or (moved and r.random() < 0.5):
+            continue
+        s = r.randint(1, len(ks) - 1)
+        for a, b in zip(ks, ks[s:] + ks[:s]):
+            pi[a] = b
+        moved = True
+    return pi if moved else None
+
+
+def _route_stream(r, k, g):
+    """-> (module specs, channel groups, X, how): all channels the same class with the same hyper-parameters (so the
+    per-channel activations of permuted templates are the very same numbers)"""
+    from .. import specs as _sp
+    pi = _ratio_preserving_perm(r, g)
+    rows = []
+    if r.random() < 0.65:
+        # FuzzyART channels; clusters of channel readings around a centre u: two categories whose templates are permuted
+        # (too far apart in some channel to resonate with each other), then samples equal in all channels near u
+        cls, dd = "FuzzyART", r.randint(1, 2)
+        rho = r.choice([0.85, 0.9, 0.8])
+        ms = {"cls": cls, "rho": rho, "alpha": r.choice([0.01, 1e-3, 0.1, 1e-7]), "beta": r.choice([1.0, 1.0, 0.5, 0.75])}
+        rad = 1.0 - rho
+        for c in range(r.randint(1, 2)):
+            u = [r.uniform(0.22, 0.32) + 0.45 * c for _ in range(dd)]
+            sg = [r.choice([-1, 1]) for _ in range(k)]
+            if pi:
+                k0 = r.choice([j for j in range(k) if pi[j] != j])
+                sg[k0], sg[pi[k0]] = 1, -1
+            A = [[round(x + s * r.uniform(0.6, 0.95) * rad, r.choice([2, 3, 17])) for x in u] for s in sg]
+            rows.append(A)
+            if pi:
+                rows.append([A[pi[j]] for j in range(k)])
+            tail = [[list(u)] * k]
+            for _ in range(r.randint(1, 3)):
+                v = [[x + r.uniform(-0.3, 0.3) * rad for x in u]] * k if r.random() < 0.5 else \
+                    [[x + r.uniform(-0.9, 0.9) * rad for x in u] for _ in range(k)]
+                tail.append(v)
+            r.shuffle(tail)
+            rows += tail
+        X = np.vstack([np.hstack([gen.cc(np.array([ch], dtype=float)) for ch in row]) for row in rows])
+        how = "fuzzy-clusters"
+    else:
+        # any class whose activations are plain Python floats (rational kernels), channel readings drawn from a pool
+        cls = r.choice(["FuzzyART", "ART1", "ART2A"])
+        dd = r.randint(2, 3) if cls != "FuzzyART" else r.randint(1, 2)
+        ms = families._elem(r, cls, dd)
+        pool = _sp.elem_data(r, cls, r.randint(k, k + 3), dd, floats=cls != "ART1" and r.random() < 0.5)
+        for c in range(r.randint(1, 2)):
+            A = [r.randrange(len(pool)) for _ in range(k)]
+            rows.append(A)
+            if pi:
+                rows.append([A[pi[j]] for j in range(k)])
+            rows.append([r.randrange(len(pool))] * k)
+            for _ in range(r.randint(1, 3)):
+                rows.append([r.randrange(len(pool))] * k if r.random() < 0.4 else [r.randrange(len(pool)) for _ in range(k)])
+        X = np.vstack([np.hstack([pool[j] for j in row]) for row in rows])
+        how = "pool:" + cls
+    return [dict(ms) for _ in range(k)], [(cls, dd)] * k, X, how, pi
+
+
+def _exact_tie(est, x, g):
+    """does sample x activate two categories of `est` equally in exact arithmetic, through channel activations that come
+    in another order?  -> (tie, rounding_sensitive): rounding_sensitive = the left-to-right double sums differ"""
+    from fractions import Fraction as Fr
+    acts = []
+    with quiet():
+        for j in range(len(est.W)):
+            a = []
+            for c, m in enumerate(est.modules):
+                lo, hi = est._channel_indices[c]
+                a.append(float(m.category_choice(x[lo:hi], m.W[j], m.params)[0]))
+            acts.append(a)
+    tie = sens = False
+    for p in range(len(acts)):
+        for q in range(p + 1, len(acts)):
+            if acts[p] != acts[q] and sum(Fr(a) * Fr(float(y)) for a, y in zip(acts[p], g)) == sum(Fr(a) * Fr(float(y)) for a, y in zip(acts[q], g)):
+                tie = True
+                sp = sq = 0.0
+                for a, b, y in zip(acts[p], acts[q], g):
+                    sp, sq = sp + a * float(y), sq + b * float(y)
+                sens = sens or sp != sq
+    return tie, sens
+
+
+def _show(p):
+    return p if isinstance(p, str) else np.asarray(p).tolist()
+
+
+def reconfigured_refits(ctx):
+    """fresh = FusionART(modules, gamma_values=c(g), dims).fit(X);  used = FusionART(modules, other ratios, dims), some
+    earlier history, then gamma_values := c(g) by set_params / attribute assignment, then fit(X).  Oracle: used == fresh
+    (weights, labels, predictions), for the container c = list and c = ndarray separately."""
+    cov = ctx.cov
+    ok_pool = {k: [g for g in gs if _gamma_ok(g)] for k, gs in GAMMA_POOL.items()}
+    for i in range(ctx.scale(48, 600)):
+        r = gen.rng_for(ctx.seed, "C06-route", i)
+        k = r.choice([3, 3, 4, 4, 5, 6])
+        g = list(r.choice(ok_pool[k]))
+        mods, groups, X, how, pi = _route_stream(r, k, g)
+        n = len(X)
+        mode, eps = r.choice(families.MODES), r.choice([0.0, 2.0 ** -20, 1e-10])
+        dims = [X.shape[1] // k] * k
+        # the hyper-parameters of the used estimator before it is re-configured: other valid ratios, either container
+        others = [o for o in ok_pool[k] if o != g] + [[1.0 if j == c else 0.0 for j in range(k)] for c in range(k)]
+        other = CONTAINERS[r.choice(sorted(CONTAINERS))](r.choice(others))
+        idx = list(range(n))
+        r.shuffle(idx)
+        pre = X[np.array(idx[: max(1, n // 2)])]
+        rows = families.Rows(X=X)
+        snaps = {}
+        for cname in sorted(CONTAINERS):
+            mk = CONTAINERS[cname]
+            spec = {"cls": "FusionART", "modules": mods, "gamma_values": mk(g), "channel_dims": dims}
+            fam = families.Fusion(spec, mode, eps)
+            fam_other = families.Fusion(dict(spec, gamma_values=other), mode, eps)
+            desc = dict(family="FusionART", spec=dict(spec, gamma_values=[float(x) for x in g]), gamma_container=cname, mode=mode, eps=eps,
+                        rows=X.tolist(), data=how, earlier=dict(gamma_values=np.asarray(other).tolist(),
+                                                               gamma_container=type(other).__name__, rows=pre.tolist()))
+
+            def observe(est):
+                s = fam.snap(est)
+                try:
+                    with quiet():
+                        s["predict"] = np.asarray(est.predict(X)).copy()
+                except Exception as e:      # predict failures are C04/C08 business, but they must be the same on both sides
+                    s["predict"] = "raised:" + exc_enum(e)
+                return s
+            try:
+                fresh = fam.make()
+                fam.fit(fresh, rows)
+                want = observe(fresh)
+            except Exception as e:
+                cov.hit(f"fusion-route:ref-raised:{exc_enum(e)}")
+                continue
+            snaps[cname] = want
+            ncat = len(fresh.W)
+            cov.case(("fusion-route", mods[0], g, cname, mode, eps, desc["rows"]), n >= 2 and ncat >= 2)
+            if cname == "list" and ncat >= 2:
+                # the situation aimed at: a sample of the stream ties two categories of the model trained on the rows
+                # before it (exactly, through another channel order)
+                probe = fam.make()
+                for t in range(n):
+                    try:
+                        tie, sens = _exact_tie(probe, X[t], g) if len(probe.W) >= 2 else (False, False)
+                        fam.pfit(probe, rows.sl(t, t + 1))
+                    except Exception:
+                        break
+                    if tie:
+                        cov.hit("fusion-route:exact-tie-in-other-channel-order")
+                        if sens:
+                            cov.hit("fusion-route:exact-tie:left-to-right-sums-differ")
+                        break
+            for route in ("set_params", "attribute", "set_params-before-any-training", "set_params+partial_fit-history"):
+                try:
+                    est = fam_other.make()
+                    if route == "set_params+partial_fit-history":
+                        a = max(1, len(pre) // 2)
+                        fam_other.pfit(est, families.Rows(X=pre[:a]))
+                        read_only(fam_other, est, families.Rows(X=pre), r)
+                        fam_other.pfit(est, families.Rows(X=pre[a:] if a < len(pre) else pre))
+                    elif route != "set_params-before-any-training":
+                        fam_other.fit(est, families.Rows(X=pre))
+                        if r.random() < 0.5:
+                            fam_other.predict(est, families.Rows(X=pre))
+                except Exception as e:
+                    cov.hit(f"fusion-route:history-raised:{exc_enum(e)}")
+                    continue
+                try:
+                    with quiet():
+                        if route == "attribute":
+                            est.gamma_values = mk(g)
+                        else:
+                            est.set_params(gamma_values=mk(g))
+                    fam.fit(est, rows)
+                    got = observe(est)
+                except Exception as e:
+                    ctx.issue("violation", f"FusionART.reconfigured-refit:{route}:{exc_enum(e)}",
+                              f"a FusionART that got gamma_values (a {cname}) through {route} raised {e!r} in fit where the estimator "
+                              "constructed with these values succeeds", dict(desc, route=route))
+                    continue
+                if not eq_snap(got, want):
+                    bad = sorted(kk for kk in want if not eq_snap(got.get(kk), want[kk]))
+                    ctx.issue("violation", f"FusionART:reconfigured-refit!=fresh:gamma_values-as-{cname}",
+                              f"{k} channels, gamma_values {g} handed over as a {cname}: the estimator that received them through {route} "
+                              f"(earlier ratios {np.asarray(other).tolist()}) and is then fitted differs in {bad} from the estimator constructed "
+                              f"with them and fitted on the same stream (predict {_show(got.get('predict'))} vs {_show(want.get('predict'))})",
+                              dict(desc, route=route))
+                cov.hit(f"fusion-route:{route}:{cname}")
+            cov.hit(f"fusion-route:channels:{k}")
+            cov.hit(f"fusion-route:data:{how}")
+            if any(abs(x * 64 - round(x * 64)) > 0 for x in g):
+                cov.hit("fusion-route:non-dyadic-ratios")
+        # the same values in the two containers are two different configurations for the purpose of this check (the
+        # library multiplies and adds list entries and array entries with different arithmetic); noted, not judged
+        if len(snaps) == 2:
+            cov.hit("fusion-route:list-vs-ndarray:" + ("same-model" if eq_snap(snaps["list"], snaps["ndarray"]) else "different-model"))
+
+
 def prepare(ctx):
     """Translator tie (see gen_tie.py): the statements of the BaseART methods are regenerated from the source and the
     theorems about the generated definitions are re-checked"""
@@ -442,6 +683,7 @@ def run(ctx):
         # ---- (d) read-only accessors (cluster centres, bounding boxes, regression predictions) interleaved
         accessors_interleaved(ctx, i, name, fam, rows, parts, desc, ref_snap)
     deep_refits(ctx)
+    reconfigured_refits(ctx)
     long_streams(ctx)
     # ---- tie: Lean folds vs implementation (fit, partial_fit partitions, re-fit)
     e2e.base_histories(ctx, "C06", ctx.scale(150, 3000), ctx.scale(20, 80), fields=("labels", "W"))
